@@ -137,10 +137,10 @@ func c16Base(c *run.Ctx, n1, nr, n2, nm int, wrap bool) *c16State {
 		w.WaitIdle(sim.StepTimeout)
 	}
 	for i := 0; i < n1; i++ {
-		d.Publish(1, i%3 == 1, []int{0, 3, 40, 200}[c.Rng.Intn(4)])
+		d.Publish(1, i%3 == 1, []int{0, 3, 40, 200, 6000}[c.Rng.Intn(5)])
 	}
 	for i := 0; i < nr+n2; i++ {
-		d.Publish(2, i%4 == 3, []int{0, 3, 40, 200}[c.Rng.Intn(4)])
+		d.Publish(2, i%4 == 3, []int{0, 3, 40, 200, 6000}[c.Rng.Intn(5)])
 		w.WaitIdle(sim.StepTimeout)
 	}
 	if !w.WaitIdle(sim.StepTimeout) {
@@ -829,6 +829,10 @@ func c16Variants(c *run.Ctx, st *c16State, k, extra int) [][]c16Damage {
 	for _, key := range keys {
 		for op := 0; op < 3; op++ {
 			out = append(out, []c16Damage{one(key, op)})
+		}
+		if l := len(st.content[key]); l > 4200 {
+			// a long record: damage far behind its head as well
+			out = append(out, []c16Damage{{Key: key, Op: "alter", Pos: l - 13 - c.Rng.Intn(l-4200), Val: byte(1 + c.Rng.Intn(255))}})
 		}
 	}
 	strayKeys := []uint{1, 0x3fff, 0x4000, 0x6001, 0x7fff}
